@@ -316,6 +316,26 @@ def discover_ext():
     return out
 
 
+def expansion_blame(cdir):
+    """The ext crate did not build.  Decide whether the named obligation "to_dyn! expands to code that compiles in this
+    calling crate" is what failed: plain rustc (cargo check --tests) must fail WITH the single to_dyn! call compiled in,
+    name the macro in its diagnostics, and succeed with `--cfg verif_no_to_dyn` (same crate, same rrtk copy, everything
+    else still type-checked against rrtk's API).  Anything else (rrtk itself does not build in this configuration, the
+    harness crate uses an API that changed, ...) is not a refutation: returns None and the caller stays undecided."""
+    rc1, out1, _ = run(["cargo", "check", "--offline", "--tests"], cwd=cdir, timeout=1800, extra_env={"RUSTFLAGS": ""})
+    if rc1 == 0:
+        return None
+    if not re.search(r"to_dyn", out1) or not re.search(r"(?m)^error", out1):
+        return None
+    rc2, out2, _ = run(["cargo", "check", "--offline", "--tests"], cwd=cdir, timeout=1800,
+                       extra_env={"RUSTFLAGS": "--cfg verif_no_to_dyn"})
+    if rc2 != 0:
+        return None
+    errs = re.findall(r"(?ms)^error.*?(?=^error|^warning|\Z)", out1)
+    return {"cmd": "cargo check --offline --tests", "with_to_dyn_rc": rc1, "without_to_dyn_rc": rc2,
+            "diagnostics": _tail("".join(errs) or out1, 3000)}
+
+
 def run_ext_crate(ext, names, jobs, timeout_s):
     """Copy the ext crate and /repo's working tree into one scratch dir, point the dependency at the copy, run Kani."""
     scratch = new_scratch("x." + ext["crate"])
@@ -325,8 +345,10 @@ def run_ext_crate(ext, names, jobs, timeout_s):
     cdir = os.path.join(scratch, ext["crate"])
     import shutil
     shutil.copytree(ext["dir"], cdir)
-    ct = os.path.join(cdir, "Cargo.toml")
-    write(ct, read(ct).replace("RRTK_PATH", repo_copy))
+    for root, _dirs, files in os.walk(cdir):
+        if "Cargo.toml" in files:
+            ct = os.path.join(root, "Cargo.toml")
+            write(ct, read(ct).replace("RRTK_PATH", repo_copy))
     write(os.path.join(cdir, ".cargo", "config.toml"), "[net]\noffline = true\n")
     out_json = os.path.join(cdir, "kani_out.json")
     cmd = ["cargo", "kani", "-Z", "function-contracts", "-Z", "stubbing", "-Z", "unstable-options", "--no-overflow-checks",
@@ -335,6 +357,14 @@ def run_ext_crate(ext, names, jobs, timeout_s):
         cmd += ["--harness", n]
     rc, out, secs = run(cmd, cwd=cdir, timeout=timeout_s)
     if not os.path.exists(out_json):
+        blame = expansion_blame(cdir)
+        if blame is not None:
+            # every harness of this crate fails the same named obligation: "the expansion of to_dyn! compiles here"
+            return ({n: {"harness": n, "status": "Failure", "duration_ms": 0, "n_checks": 1, "covers": [],
+                         "failed_checks": [{"description": "to_dyn! expanded in this crate does not compile (the crate compiles "
+                                            "with the single to_dyn! call compiled out)", "function": "to_dyn!", "location": None}],
+                         "compile_error": blame} for n in names},
+                    " ".join(shlex.quote(c) for c in cmd), cdir)
         raise Undecided("ext crate %s: cargo kani produced no result file rc=%s\n%s" % (ext["crate"], rc, _tail(out, 3000)))
     data = json.loads(read(out_json))
     res = {}
